@@ -1248,6 +1248,11 @@ def run(chk, G):
     except Exception as e:
         chk.notes.append('extension coverage not measured: %r' % (e,))
 
+    # for the follow-up round (harness/c17_sel.py)
+    G['_ext'] = {'ss_statement': None if cli_error else ss_statement, 'ss_conv': None if cli_error else ss_conv,
+                 'cli_error': cli_error, 'Args': Args, 'FF': FF, 'FakeDSSP': FakeDSSP, 'ss_oracle': ss_oracle,
+                 'conv_oracle_observed': conv_oracle_observed}
+
     chk.trusted.append('harness/c17_ext.py: AST extraction of the `if args.dssp: ... elif args.ss ... elif args.collagen` statement '
                        'and of the type= of -ss from bin/martinize2; fake DSSP callable / executable; coding of attribute values')
     chk.assumptions.append('node keys are Python ints (the order of the atoms inside a residue tuple is the iteration order of a CPython '
